@@ -171,3 +171,26 @@ SPEC("pane.classes", "_maybe_make_hash",
                                            closure_of(getattr(cls, "__hash__")) == "pane.classes:_make_hash.<locals>.__hash__"
                                            and closure_free(getattr(cls, "__hash__"), "fields") is fields), ["C16"], "generated")],
      raises=(lambda cls, fields, exc: exc_is(exc, TypeError), ["C16"]))
+
+
+# ---- rich comparisons are the sign of _pane_ord (so <, ==, > are mutually exclusive and exhaustive on comparable instances) -------
+SPEC("pane.classes", "_make_ord.<locals>.__lt__", shapes=CLOSURE_SHAPES, preamble=True,
+     ensures=[(lambda self, other, _pane_ord, result: result == ite(_pane_ord(self, other) is NotImplementedV, NotImplementedV, lt(_pane_ord(self, other), 0)),
+               ["C16"], "sign")], no_raise=["C16"])
+SPEC("pane.classes", "_make_ord.<locals>.__le__", shapes=CLOSURE_SHAPES, preamble=True,
+     ensures=[(lambda self, other, _pane_ord, result: result == ite(_pane_ord(self, other) is NotImplementedV, NotImplementedV,
+                                                                    lt(_pane_ord(self, other), 0) or _pane_ord(self, other) == 0),
+               ["C16"], "sign")], no_raise=["C16"])
+SPEC("pane.classes", "_make_ord.<locals>.__gt__", shapes=CLOSURE_SHAPES, preamble=True,
+     ensures=[(lambda self, other, _pane_ord, result: result == ite(_pane_ord(self, other) is NotImplementedV, NotImplementedV, lt(0, _pane_ord(self, other))),
+               ["C16"], "sign")], no_raise=["C16"])
+SPEC("pane.classes", "_make_ord.<locals>.__ge__", shapes=CLOSURE_SHAPES, preamble=True,
+     ensures=[(lambda self, other, _pane_ord, result: result == ite(_pane_ord(self, other) is NotImplementedV, NotImplementedV,
+                                                                    lt(0, _pane_ord(self, other)) or _pane_ord(self, other) == 0),
+               ["C16"], "sign")], no_raise=["C16"])
+
+
+# ---- make_unchecked: the constructor with conversion switched off (arguments stored verbatim, C14) -----------------------------
+SPEC("pane.classes", "_make_init.<locals>.make_unchecked",
+     shapes={"args": "seq", "kwargs": "map"},
+     ensures=[(lambda cls, args, kwargs, result: result == callv(cls, args, kwargs, _pane_checked=False), ["C14"], "unchecked-constructor")])
